@@ -1,6 +1,7 @@
 import Proofs.StdNoPanicLemmas
 import Proofs.ArrNoPanic
 import Proofs.JsonLemmas
+import Proofs.DateLemmas
 /-!
 # The standard value layer never panics (the hypothesis of `run_noPanic`, discharged)
 
@@ -12,7 +13,7 @@ The `.panic` sites of the model and why none is reachable:
 
 * `Compare.lean` (17 sites: the `reflect` accessors and Go's `==` on uncomparable types) — by the
   theorems of `Proofs/CompareLemmas.lean` / `C09.lean` (`rel_no_panic`, `Cmp.equal_noPanic`);
-* `Num.badArgs`, `ArrF.badArgs`, `JsonF.badArgs` (a body applied to arguments of the wrong Go type) — `values.Call` converts every
+* `Num.badArgs`, `ArrF.badArgs`, `JsonF.badArgs`, `DateF.badArgs` (a body applied to arguments of the wrong Go type) — `values.Call` converts every
   argument to the parameter type of the registered signature first (`convertArgs_ok`), and each
   body's pattern is exactly its signature (`ImplsNoPanic`: a body is only required to be panic-free
   on arguments that are well typed for the signature registered under its name);
@@ -76,9 +77,17 @@ theorem jsonImpls_noPanic : ImplsNoPanic JsonF.impls := by
   refine .cons (implNP_of_sig (ps := [.val .any]) (by decide +kernel) JsonF.typeF_noPanic) ?_
   exact .nil
 
-/-- the whole table of `Liquid/Std.lean` -/
+/-- `date`: the model of `tuesday.Strftime` and of the calendar has no panic site (`Proofs/DateLemmas.lean`);
+    the body matches the time receiver and the string default function of its signature, and the lazy
+    conversion of the format argument is the recovered `TypeError` of the call layer -/
+theorem dateImpls_noPanic : ImplsNoPanic DateF.impls := by
+  unfold DateF.impls
+  refine .cons (implNP_of_sig (ps := [.val .time, .fn .str]) (by decide +kernel) DateF.date_noPanic) ?_
+  exact .nil
+
+/-- the whole table of `Liquid/Std.lean`: all 48 registered filters -/
 theorem stdFilterImpls_noPanic : ImplsNoPanic stdFilterImpls :=
-  ((numImpls_noPanic.append strImpls_noPanic).append arrImpls_noPanic).append jsonImpls_noPanic
+  (((numImpls_noPanic.append strImpls_noPanic).append arrImpls_noPanic).append jsonImpls_noPanic).append dateImpls_noPanic
 
 -- the table is not vacuous: these calls reach a body (`"1.5" | round: 1`, `5 | upcase`, `(1..3) | join: 0`)
 example : (applyFilter (lookupImpl stdFilterImpls) (Num.bn "round") (.str [49, 46, 53]) [.int .int 1]).isOk = true := by
@@ -95,6 +104,16 @@ example : (match applyFilter (lookupImpl stdFilterImpls) (Num.bn "json")
   decide +kernel
 example : (match applyFilter (lookupImpl stdFilterImpls) (Num.bn "type") (.int .int 3) [] with
     | .ok (.str s) => s == [105, 110, 116]
+    | _ => false) = true := by
+  decide +kernel
+
+-- `t | date: "%Y-%m-%d"` for 2000-02-29 is `2000-02-29`; `"2020-01-02" | date` is `Thu, Jan 02, 20`
+example : (match applyFilter (lookupImpl stdFilterImpls) [100, 97, 116, 101] (.time 951782400) [.str [37, 89, 45, 37, 109, 45, 37, 100]] with
+    | .ok (.str s) => s == [50, 48, 48, 48, 45, 48, 50, 45, 50, 57]
+    | _ => false) = true := by
+  decide +kernel
+example : (match applyFilter (lookupImpl stdFilterImpls) [100, 97, 116, 101] (.str [50, 48, 50, 48, 45, 48, 49, 45, 48, 50]) [] with
+    | .ok (.str s) => s == [84, 104, 117, 44, 32, 74, 97, 110, 32, 48, 50, 44, 32, 50, 48]
     | _ => false) = true := by
   decide +kernel
 
